@@ -4,7 +4,7 @@
 (* Dhcp4Wire.tla (C15).  Every builder is                                      *)
 (*     ApplyAll(caller's modifiers, ApplyAll(builder defaults, Base(xid)))     *)
 (* so caller-supplied modifiers are applied last and prevail.                  *)
-EXTENDS Dhcp4Wire
+EXTENDS Dhcp4Wire, Label
 
 ZeroIP == <<0, 0, 0, 0>>
 Base(xid) == [op |-> 1, htype |-> 1, hops |-> 0, xid |-> xid, secs |-> 0, flags |-> 0,
@@ -35,6 +35,7 @@ Apply(m, p) ==
       [] m.k = "hw" -> [p EXCEPT !.ch = m.v]
       [] m.k = "bcast" -> [p EXCEPT !.flags = IF m.v THEN BitSet(@) ELSE BitClear(@)]
       [] m.k = "opt" -> SetOpt(p, m.c, m.v)
+      [] m.k = "names" -> SetOpt(p, 119, LabelEncode(m.v))          \* WithDomainSearchList: RFC 3397 / RFC 1035 encoding of the names
       [] m.k = "del" -> DelOpt(p, m.c)
       [] m.k = "reqopts" -> SetOpt(p, 55, AddCodes(OptVal(p, 55), m.v))
       [] m.k = "relay" -> [p EXCEPT !.flags = BitClear(@), !.gi = m.v, !.hops = (@ + 1) % 256]
